@@ -973,6 +973,66 @@ Definition get_step (v : val) : option (option text * text) :=
   | _ => None
   end.
 
+(* ---- fourth round: target vocabulary of the translator (harness/c01/translate.py).  The program
+   regenerated from the source (coq/Gen/Prog_C01.v) consists of control flow over these primitives
+   and the definitions above. *)
+(* request.path_info (WebOb): KeyError when PATH_INFO is missing, UnicodeDecodeError when it is not
+   UTF-8, else the decoded text *)
+Inductive pinfo := PI_missing | PI_undecodable | PI_text (t : text).
+Definition req_path_info (raw : option text) : pinfo :=
+  match raw with
+  | None => PI_missing
+  | Some b => match Utf8.decode b with None => PI_undecodable | Some t => PI_text t end
+  end.
+Definition l_is_nil {A} (l : list A) : bool := match l with [] => true | _ => false end.
+Definition l_snoc {A} (l : list A) (x : A) : list A := l ++ [x].
+Definition l_drop_last {A} (l : list A) : list A := removelast l.
+(* results of RoutesMapper.__call__ with the predicate-call events of the path taken *)
+Definition tracedout := (outcome * list (nat * nat))%type.
+Definition ret_match (r : route) (d : matchdict) : tracedout := (OMatch r d, []).
+Definition ret_none : tracedout := (ONone, []).
+Definition ret_decode_error : tracedout := (ODecodeError, []).
+(* all(p(info, request) for p in preds) was evaluated: n predicates of route i were called *)
+Definition emit (ev : nat * nat) (k : tracedout) : tracedout := (fst k, ev :: snd k).
+Definition preds_verdict (method : text) (d : matchdict) (ps : list pred) : bool := fst (eval_preds method d ps 0).
+Definition preds_called (method : text) (d : matchdict) (ps : list pred) : nat := snd (eval_preds method d ps 0).
+(* attribute updates of a RoutesMapper *)
+Definition set_routelist (m : mapper) (l : list route) : mapper := mkMapper l (statics m) (routes m).
+Definition set_statics (m : mapper) (l : list route) : mapper := mkMapper (routelist m) l (routes m).
+Definition set_routes (m : mapper) (d : list (text * route)) : mapper := mkMapper (routelist m) (statics m) d.
+(* oldroute in self.routelist: routes compare by identity *)
+Definition mem_id (i : nat) (l : list route) : bool := existsb (fun r => Nat.eqb (r_id r) i) l.
+Definition connected (m : mapper) : mapper * res unit := (m, Ok tt).
+Definition connect_failed {A} (m : mapper) (e : res A) : mapper * res unit :=
+  (m, match e with Ok _ => Ok tt | CompileError => CompileError | Unsupported => Unsupported | FactsDrift => FactsDrift end).
+(* x.encode('latin-1') / y.decode('utf-8') *)
+Definition latin1_encode (t : text) : option text := if forallb (fun c => (c <? 256)%N) t then Some t else None.
+Definition utf8_decode_opt (b : option text) : option text := match b with Some x => Utf8.decode x | None => None end.
+
+(* the matcher closure of _compile_route: d[k] = v on a dictionary, k == remainder *)
+Fixpoint md_put (d : matchdict) (k : text) (v : mval) : matchdict :=
+  match d with
+  | [] => [(k, v)]
+  | (k', v') :: r => if text_eqb k k' then (k, v) :: r else (k', v') :: md_put r k v
+  end.
+Definition is_remainder (k : text) (rem : option text) : bool :=
+  match rem with Some n => text_eqb k n | None => false end.
+(* reference model of the closure: a fresh dictionary per call, filled from the items of
+   m.groupdict() in order, the remainder's value split into normalised segments *)
+Definition matcher_step (rem : option text) (d : matchdict) (kv : text * text) : matchdict :=
+  md_put d (fst kv) (if is_remainder (fst kv) rem then MSegs (split_path_info (snd kv)) else MText (snd kv)).
+Definition matcher_model (groups : text -> option (list (text * text))) (rem : option text) (path : text)
+  : option matchdict :=
+  option_map (fun items => fold_left (matcher_step rem) items []) (groups path).
+
+Fixpoint connect_all_f (cf : mapper -> nat -> decl -> mapper * res unit) (m : mapper) (id : nat) (ds : list decl)
+  : mapper * list (res unit) :=
+  match ds with
+  | [] => (m, [])
+  | d :: r => let '(m1, st) := cf m id d in
+              let '(m2, sts) := connect_all_f cf m1 (S id) r in (m2, st :: sts)
+  end.
+
 (* case   = [[wordchars; digitchars]; decls; [] | [PATH_INFO bytes]; method; mode; history?]
             mode 0: RoutesMapper driven directly; mode 1: Configurator.add_route + Router
             (duplicate names conflict and a failing connect aborts the commit)
@@ -1007,6 +1067,43 @@ Definition run_C01 (v : val) : val :=
                | Some l => VL (map put_outcome l)
                | None => VL [VT (T "drift")]
                end in
+        Some (VL [model; put_spec (spec_request_m orc ds method raw); hist;
+                  VL (map put_spec (spec_hist (spec_parse_m orc) (spec_match_m orc) ds steps))])
+    | _ => None
+    end).
+
+(* the same glue over any connect / __call__ functions: Extract/C01.v instantiates it with the
+   program regenerated from the source (Gen/Prog_C01.v) *)
+Definition run_C01_with
+  (cf : (text -> res pat) -> mapper -> nat -> decl -> mapper * res unit)
+  (callf : (pat -> text -> option matchdict) -> mapper -> text -> option text -> tracedout)
+  (v : val) : val :=
+  ret_or_bad (
+    match v with
+    | VL (o :: ds :: raw :: VT method :: VI mode :: rest) =>
+        olet orc := get_oracle o in
+        olet ds := get_list_of get_decl ds in
+        olet raw := get_opt get_text raw in
+        olet steps := match rest with
+                      | [] => Some []
+                      | [h] => get_list_of get_step h
+                      | _ => None
+                      end in
+        let '(m, sts) := connect_all_f (cf (parse_pattern_m orc)) empty_mapper 0 ds in
+        let router := negb (Z.eqb mode 0) in
+        let cfgerr := router && (negb (forallb is_ok sts) || has_dup (map d_name ds)) in
+        let model :=
+          if cfgerr
+          then VL [VL (map put_status sts); VL []; VL []; put_outcome OConfigError; VL []]
+          else
+            let '(out, tr) := callf (match_pat_m orc) m method raw in
+            VL [VL (map put_status sts); put_ids (routelist m); put_ids (statics m); put_outcome out;
+                if router then VL [] else put_trace tr] in
+        let hist :=
+          if cfgerr then VL []
+          else if matcher_pure_ok
+               then VL (map (fun s => put_outcome (fst (callf (match_pat_m orc) m (snd s) (fst s)))) steps)
+               else VL [VT (T "drift")] in
         Some (VL [model; put_spec (spec_request_m orc ds method raw); hist;
                   VL (map put_spec (spec_hist (spec_parse_m orc) (spec_match_m orc) ds steps))])
     | _ => None
